@@ -105,11 +105,34 @@ pub mod std {
     };
     pub mod thread {
         use crate::{clock, probes};
-        pub use shuttle::thread::{
-            current, park, scope, yield_now, Builder, JoinHandle, Scope, ScopedJoinHandle, Thread,
-            ThreadId,
-        };
+        pub use shuttle::thread::{current, park, scope, yield_now, Builder, Scope, ScopedJoinHandle, Thread, ThreadId};
         pub use ::std::thread::Result;
+        use ::std::sync::atomic::{AtomicBool, Ordering};
+        use ::std::sync::Arc;
+
+        /// shuttle's JoinHandle plus `is_finished` (std has it, shuttle does not)
+        #[derive(Debug)]
+        pub struct JoinHandle<T> {
+            inner: shuttle::thread::JoinHandle<T>,
+            done: Arc<AtomicBool>,
+        }
+        impl<T> JoinHandle<T> {
+            pub fn join(self) -> Result<T> {
+                self.inner.join()
+            }
+            pub fn is_finished(&self) -> bool {
+                self.done.load(Ordering::SeqCst)
+            }
+            pub fn thread(&self) -> &Thread {
+                self.inner.thread()
+            }
+        }
+        struct DoneGuard(Arc<AtomicBool>);
+        impl Drop for DoneGuard {
+            fn drop(&mut self) {
+                self.0.store(true, Ordering::SeqCst);
+            }
+        }
 
         pub fn spawn<F, T>(f: F) -> JoinHandle<T>
         where
@@ -117,7 +140,13 @@ pub mod std {
             T: Send + 'static,
         {
             probes::hit(probes::SPAWN);
-            shuttle::thread::spawn(f)
+            let done = Arc::new(AtomicBool::new(false));
+            let guard = DoneGuard(done.clone());
+            let inner = shuttle::thread::spawn(move || {
+                let _g = guard;
+                f()
+            });
+            JoinHandle { inner, done }
         }
 
         /// advance the simulated clock and hand control to the scheduler. A real sleep is a
